@@ -114,7 +114,7 @@ def fresh_observation(blocks, ref, limit):
     return got
 
 
-def check_final(w, final_blocks, res, failures, limit, label='final', fresh=True):
+def check_final(w, final_blocks, res, failures, limit, label='final', fresh=True, populate=False):
     ref = observe.ref_at(final_blocks, len(final_blocks) - 1, ACTIVATION)
     if not w.at_daemon_tip():
         failures.append((f'{label}:not-at-daemon-tip',
@@ -126,6 +126,8 @@ def check_final(w, final_blocks, res, failures, limit, label='final', fresh=True
         failures.append((f'{label}:{field}', detail if isinstance(detail, dict) else {'v': detail}))
     res.count('observations')
     # header proofs for every (height <= cp_height <= tip) against the textbook merkle tree
+    if populate:
+        w.loop.run_coro(w.db.populate_header_merkle_cache(), fire_timers=False)
     hashes = [b.hash for b in final_blocks]
     for cp in range(len(hashes)):
         lv = _levels(hashes[:cp + 1])
